@@ -159,9 +159,9 @@ def type_evaluator(fn, T, extra=None, ctx=None, depth=0):
         if bo and bo[0] in ('==', '!='):
             a, b = f.fmt(bo[1]), f.fmt(bo[2])
             for x, y in ((a, b), (b, a)):
-                if x.endswith('QDomElement::tagName()') and x.startswith('p0') and y.startswith('"'):
+                if x == 'p0.QDomElement::tagName()' and y.startswith('"'):
                     return ((y == '"iq"') == (bo[0] == '=='),)
-                if x.endswith('QDomElement::attribute("type")') and x.startswith('p0') and y.startswith('"'):
+                if x == 'p0.QDomElement::attribute("type")' and y.startswith('"'):
                     return ((y == '"%s"' % lit) == (bo[0] == '=='),)
         if n['k'] == 'call' and f.cname(n) in ('QXmppIq::type',):
             return (('enum', 'QXmppIq::' + T),)
